@@ -15,16 +15,20 @@ from ..core.report import Run
 LEVEL = "other"
 
 
-def lower_bound(e: ast.AST):
-    """A constant the expression is never below (None: unknown)."""
+def lower_bound(e: ast.AST, cev=None):
+    """A constant the expression is never below (None: unknown).  ``cev`` evaluates named constants."""
     from ..core.model import fold
 
     try:
         return fold(e)
     except ValueError:
         pass
+    if cev is not None:
+        v = cev(e)
+        if isinstance(v, (int, float)) and not isinstance(v, bool):
+            return v
     if isinstance(e, ast.Call) and dotted(e.func) in ("max", "min") and e.args and not e.keywords:
-        bs = [lower_bound(a) for a in e.args]
+        bs = [lower_bound(a, cev) for a in e.args]
         if dotted(e.func) == "max":
             known = [b for b in bs if b is not None]
             return max(known) if known else None
@@ -174,7 +178,9 @@ def check(repo: Repo, run: Run) -> None:
                "Environment() no longer raises the interpreter's recursion limit: expressions within CEL's minimum nesting exhaust the default stack (RecursionError escapes evaluate())", top.loc(init))
     else:
         c = nested[0]
-        value = lower_bound(c.args[0]) if c.args else None
+        from ..core.consteval import try_const as _tc
+
+        value = lower_bound(c.args[0], lambda x: _tc(top, x, top.cls("Environment"), None)) if c.args else None
         uncond = any(st.value is c for st in calls)
         ok = uncond and isinstance(value, int) and value > 1000
         run.ob("C04.E6", "Environment.__init__|recursion limit", ok,
